@@ -81,12 +81,14 @@ def gen_cond(sig, rng):
     return {"vec": vec, "B": B, "A": A}
 
 
-def gen_case(rng, atoms, nconds, nq, shapes, tries=400):
-    """A base whose pysem.shape is in `shapes`, plus nq queries (random, shaped, the base's own, negations)."""
+def gen_case(rng, atoms, nconds, nq, shapes, tries=400, min_layers=0):
+    """A base whose pysem.shape is in `shapes` (and with >= min_layers finite layers), plus nq queries
+    (random, shaped, the base's own, negations)."""
     sig = SIG[:atoms]
     for _ in range(tries):
         base = [gen_cond(sig, rng) for _ in range(nconds)]
-        if pysem.shape([c["vec"] for c in base]) in shapes:
+        bv = [c["vec"] for c in base]
+        if pysem.shape(bv) in shapes and len(pysem.part(bv)[0]) >= min_layers:
             break
     else:
         return None
@@ -233,6 +235,14 @@ def _short(x):
 
 def validate_events(chk: Check, events, tag, parts=None):
     """Write events to a trace file, run Trace_Ops, return the list of reject records (1-based event numbers)."""
+    # the c-inference oracle enumerates (2^(n-1)+2)^n impact vectors: affordable up to 4 conditionals only
+    keep = [i for i, e in enumerate(events) if not (e.get("ev") == "infer" and e.get("sys") == "c" and len(e["base"]) > 4)]
+    if len(keep) != len(events):
+        chk.cov["c_oracle_skipped_large_bases"] = chk.cov.get("c_oracle_skipped_large_bases", 0) + len(events) - len(keep)
+        rej = validate_events(chk, [events[i] for i in keep], tag)
+        for r in rej:
+            r["reject"] = keep[r["reject"] - 1] + 1
+        return rej
     if not events:
         return []
     os.makedirs(os.path.join(BUILD, "in"), exist_ok=True)
@@ -240,7 +250,7 @@ def validate_events(chk: Check, events, tag, parts=None):
     with open(tf, "w") as f:
         json.dump(events, f)
     cfg = tlc.cfg_text()
-    res = tlc.run("Trace_Ops", cfg, f"{chk.prop}_{tag}", env={"TRACE_FILE": tf}, timeout=3000)
+    res = tlc.run("Trace_Ops", cfg, f"{chk.prop}_{tag}", env={"TRACE_FILE": tf}, timeout=1500)
     tlc.require_ok(res, "Trace_Ops")
     if res.distinct != 1 + 2 * len(events):
         machinery_failure(f"Trace_Ops consumed {res.distinct} states, expected {1 + 2 * len(events)}: not every event was validated\n{res.out[-1500:]}")
